@@ -53,7 +53,7 @@ COLS_VAL = ["loads_min", "loads_max", "S_min", "S_max", "epsilon_min", "epsilon_
 
 def bounds(tier):
     return {"reversals_per_period": "2, 4 (single point; quick: negation and multi-point with 2 only)",
-            "points": "1..3 (factors 1/2, 2, 3 relative to the first point)"}
+            "points": "1..2 (quick), 1..3 (thorough); factors 1/2, 2, 3 relative to the first point"}
 
 
 def options(tier):
@@ -75,7 +75,7 @@ def cases(tier):
             c["_split"] = 8
         out.append(c)
     for n in ((2,) if q else (2, 4)):
-        for fac in ([[0.5], [2.0, 0.5]] if q else [[0.5], [2.0], [3.0], [2.0, 0.5]]):
+        for fac in ([[0.5]] if q else [[0.5], [2.0], [3.0], [2.0, 0.5]]):
             if n == 4 and fac != [0.5]:
                 continue
             c = {"kind": "multi", "n": n, "factors": fac, "_weight": 9 ** n * 3}
